@@ -1,6 +1,6 @@
 /* s4u_ext_mc.hpp: operations of the S4U interpreter needed by the model-checker properties (C39, C43).  Owner: mc1.
  *
- *   ["iprobe", mb, kind, tag]   Mailbox::iprobe(kind == 0 ? SEND : RECV, no match function, data) -> true when a matching
+ *   ["mc_iprobe", mb, kind, tag]   Mailbox::iprobe(kind == 0 ? SEND : RECV, no match function, data) -> true when a matching
  *                               communication is queued.  In a build with SMPI the IprobeSimcall observer reads the tag of the
  *                               smpi::Request that `data` is supposed to designate: `data` is a block of memory in which every
  *                               int is `tag`, so that whatever the layout of smpi::Request the observer reads `tag`.
@@ -12,7 +12,7 @@ namespace vf {
 static bool mc_ops(Ctx& c, int idx, const json& op, json& result)
 {
   const std::string o = op[0].get<std::string>();
-  if (o == "iprobe") {
+  if (o == "mc_iprobe") {
     auto* mb = S->mailboxes[op[1].get<int>()];
     static std::vector<std::vector<int>*> blocks; // kept: the observer may be read after the simcall
     auto* blk = new std::vector<int>(1024, op[3].get<int>());
